@@ -1,2 +1,769 @@
-// Package c11 decides C11 (see DESIGN.md section 4). Not built yet.
+// Package c11 decides C11 (Go and JavaScript values convert as documented and
+// round-trip).
+//
+// spec/JsMapping.tla is the documentation of package js written as the
+// operators Externalize / Internalize (numbers as exact dyadic values, strings
+// as UTF-8 bytes and UTF-16 code units), spec/JsMappingState.tla is the state
+// machine of the function wrapper cache and of the callback guard, and
+// spec/JsMappingScen.tla enumerates the catalog of types, the value pools and
+// the cases with the predicted value.  Every case is rendered through every
+// route of its family (Set/Get, Call/Invoke/New argument, result of an exposed
+// function, js-tagged struct field, js.MakeFunc, js.MakeWrapper, accessor
+// methods) as a line of a self-checking GopherJS program; a JavaScript
+// describe() helper and generated Go printers turn what arrived into a
+// canonical ASCII string which is compared with the prediction.
+//
+// There is no native guard (gc cannot build package js): oracle.go is a second,
+// independent transcription of the documentation; a case on which it disagrees
+// with the TLA+ prediction is discarded and counted.
 package c11
+
+import (
+	"encoding/json"
+	"fmt"
+	"math"
+	"math/rand"
+	"os"
+	"path/filepath"
+	"sort"
+	"strconv"
+	"strings"
+	"time"
+
+	"verif/core"
+	"verif/gjs"
+	"verif/reg"
+	"verif/tlcx"
+)
+
+func init() { reg.Register("C11", "model_checking", Run) }
+
+// ev is one evaluation: a case rendered through one route.
+type ev struct {
+	fam, route string
+	tIdx       int                      // catalog index of the type (-1: none)
+	want       string                   // descriptor of the value TLC predicts (the guard agreed)
+	gen        func(r *renderer) string // Go expression of type string
+	pred       func() string            // the guard's prediction, recomputed under defect models by classify.go
+	typ        *Type                    // for the fallback classifier
+	val        *GV
+	describe   string // human description of the case
+	raw        string // scenario as emitted by TLC
+}
+
+type specHeader struct {
+	catalog []*Type
+	routes  map[string][][2]string
+	acc     []*Type
+}
+
+func decodeRoutes(x any) [][2]string {
+	var out [][2]string
+	for _, r := range arr(x) {
+		a := arr(r)
+		out = append(out, [2]string{a[0].(string), a[1].(string)})
+	}
+	return out
+}
+
+// boundary alphabets (the chunks TLC concatenates)
+var utf8Chunks = [][]byte{
+	{0x41}, {0x00}, {0x7f}, {0xc2, 0x80}, {0xc3, 0xa9}, {0xdf, 0xbf}, {0xe0, 0xa0, 0x80}, {0xe2, 0x82, 0xac}, {0xef, 0xbf, 0xbd}, {0xef, 0xbf, 0xbf},
+	{0xed, 0x9f, 0xbf}, {0xee, 0x80, 0x80}, {0xf0, 0x90, 0x80, 0x80}, {0xf0, 0x9f, 0x98, 0x80}, {0xf4, 0x8f, 0xbf, 0xbf},
+	// malformed: lone continuation, invalid byte, overlong, encoded surrogate, above U+10FFFF, truncated
+	{0x80}, {0xff}, {0xc0, 0x80}, {0xed, 0xa0, 0x80}, {0xf4, 0x90, 0x80, 0x80}, {0xe2, 0x82}, {0xf0, 0x9f, 0x98},
+}
+var utf16Chunks = [][]uint16{
+	{0x41}, {0x00}, {0x7f}, {0x80}, {0xe9}, {0x7ff}, {0x800}, {0x20ac}, {0xd7ff}, {0xe000}, {0xfffd}, {0xffff},
+	{0xd800, 0xdc00}, {0xd83d, 0xde00}, {0xdbff, 0xdfff}, {0xd800}, {0xdbff}, {0xdc00}, {0xdfff},
+}
+
+func limbsOf(u uint64) []int {
+	return []int{int(u & 0xffff), int(u >> 16 & 0xffff), int(u >> 32 & 0xffff), int(u >> 48 & 0xffff)}
+}
+
+func numTerm(n Num) []any {
+	b := func(x bool) int {
+		if x {
+			return 1
+		}
+		return 0
+	}
+	switch n.Cls {
+	case "nan":
+		return []any{"nan"}
+	case "inf", "zero":
+		return []any{n.Cls, b(n.Neg)}
+	}
+	return []any{"fin", b(n.Neg), limbsOf(n.M), n.E}
+}
+
+func makeParams(c *core.Ctx) map[string]any {
+	rng := rand.New(rand.NewSource(c.Seed))
+	nq := func(q, t int) int { return c.Pick(q, t) }
+	chunks := utf8Chunks
+	units := utf16Chunks
+	maxChunks, maxUnits := 2, 2
+	if !c.Thorough() {
+		// quick: every chunk still appears alone and in every ordered pair with a
+		// seeded half of the alphabet; thorough: all concatenations of <= 3
+		chunks = append([][]byte{}, utf8Chunks...)
+	} else {
+		maxChunks, maxUnits = 3, 3
+	}
+	var randStrs [][]int
+	for i := 0; i < nq(40, 600); i++ {
+		n := 1 + rng.Intn(6)
+		var s []byte
+		for k := 0; k < n; k++ {
+			switch rng.Intn(4) {
+			case 0:
+				s = append(s, byte(rng.Intn(256)))
+			case 1:
+				s = append(s, []byte(string(rune(rng.Intn(0x110000))))...)
+			case 2:
+				s = append(s, []byte(string(rune(0x10000+rng.Intn(0x100000))))...)
+			default:
+				s = append(s, utf8Chunks[rng.Intn(len(utf8Chunks))]...)
+			}
+		}
+		is := make([]int, len(s))
+		for k, b := range s {
+			is[k] = int(b)
+		}
+		randStrs = append(randStrs, is)
+	}
+	var ri, ru [][]any
+	for i := 0; i < nq(12, 200); i++ {
+		x := rng.Uint64()
+		if i%3 == 0 {
+			x >>= uint(rng.Intn(40)) // around 2^53 and below
+		}
+		neg := 0
+		if int64(x) < 0 {
+			neg = 1
+			x = uint64(-int64(x))
+		}
+		ri = append(ri, []any{neg, limbsOf(x)})
+		y := rng.Uint64()
+		if i%3 == 1 {
+			y >>= uint(rng.Intn(12))
+		}
+		ru = append(ru, []any{0, limbsOf(y)})
+	}
+	var rf [][]any
+	for i := 0; i < nq(12, 200); i++ {
+		f := math.Float64frombits(rng.Uint64())
+		if f != f || math.IsInf(f, 0) {
+			f = rng.NormFloat64()
+		}
+		rf = append(rf, numTerm(NumOf(f)))
+	}
+	ci := make([][]int, len(chunks))
+	for i, ch := range chunks {
+		ci[i] = make([]int, len(ch))
+		for k, b := range ch {
+			ci[i][k] = int(b)
+		}
+	}
+	return map[string]any{"out": "scen", "chunks": ci, "maxChunks": maxChunks, "randStrs": randStrs, "units": units, "maxUnits": maxUnits,
+		"randI64": ri, "randU64": ru, "randF64": rf,
+		"fams": []string{"E", "R", "I", "X", "A", "ES", "IS", "L", "N", "M", "F", "C", "W"}}
+}
+
+const stateCfg = `SPECIFICATION StateSpec
+CONSTANTS
+  GoFuncs = {f1, f2, f3}
+  Goroutines = {g1, g2}
+  MaxExt = 5
+INVARIANT CacheFunctional
+INVARIANT CacheAgreesWithPure
+INVARIANT GuardConsistent
+PROPERTY GuardNoCorruption
+CHECK_DEADLOCK FALSE
+`
+
+// Run is the C11 check.
+func Run(c *core.Ctx, pool *gjs.Pool) {
+	c.Assumef("the specification is the documentation of package js (table and method comments of js/js.go), the README section on goroutines and callbacks, ECMAScript ToBoolean/ToString/parseInt/parseFloat on the modelled fragment, UTF-8 and UTF-16")
+	c.Assumef("no native guard exists (gc cannot build package js): the guard is a second transcription of the documentation (oracle.go) that uses Go's own conversions; disagreement with the TLA+ prediction discards the case")
+	c.Assumef("results the documentation leaves undefined (parseInt yielding NaN for an integer, numbers outside the integer type, unpaired surrogates, undefined read as interface{}, Date without package time, a callback that blocks while called synchronously from a goroutine) are recorded, not judged")
+	c.Assumef("time.Time <-> Date and instanceof Node are outside the check (package time does not compile in this sandbox; no DOM under Node)")
+	if rd := os.Getenv("VERIF_REPLAY"); rd != "" {
+		c.Infra(fmt.Errorf("replay directories of C11 carry prog/ and predicted.txt and are re-decided by the generic replay"))
+		return
+	}
+	// the state machine (cache, callback guard) and the scenario enumeration are independent TLC runs
+	type tlcRes struct {
+		r   *tlcx.Result
+		err error
+	}
+	stateCh := make(chan tlcRes, 1)
+	go func() {
+		r, err := tlcx.Run(c, tlcx.Opts{Module: "JsMappingState", Cfg: stateCfg, Workers: 2, Timeout: 10 * time.Minute})
+		stateCh <- tlcRes{r, err}
+	}()
+	pj, _ := json.Marshal(makeParams(c))
+	cfg := "SPECIFICATION Spec\nINVARIANT Check\nINVARIANT Emit\nCHECK_DEADLOCK FALSE\n"
+	r, err := tlcx.Run(c, tlcx.Opts{Module: "JsMappingScen", Cfg: cfg, Workers: 6, Timeout: 25 * time.Minute, Files: map[string]string{"c11_params.json": string(pj)}, HeapMB: 6144})
+	sr := <-stateCh
+	if !tlcx.MustComplete(c, sr.r, sr.err, "JsMappingState") {
+		return
+	}
+	if !tlcx.MustComplete(c, r, err, "JsMappingScen") {
+		return
+	}
+	c.Set("checker_cmd", "tlc JsMappingState (INVARIANTS CacheFunctional CacheAgreesWithPure GuardConsistent, PROPERTY GuardNoCorruption); tlc JsMappingScen (INVARIANT Check: RoundTrip, BoxTransparent, NumOK, Utf16OK, JsRoundTrip on every enumerated value; INVARIANT Emit)")
+	c.Set("exhaustive", true)
+
+	evs, _, err := loadCases(c, r.Dir)
+	if err != nil {
+		c.Infra(fmt.Errorf("decode scenarios: %v", err))
+		return
+	}
+	c.Phase("tlc")
+	// all programs (conversion tables, identity, callbacks, wrapper) share one pool of c.Workers
+	var jobs []func()
+	var finish []func()
+	for _, f := range []func() ([]func(), func()){
+		func() ([]func(), func()) { return runEvals(c, pool, evs) },
+		func() ([]func(), func()) { return runIdentity(c, pool, r.Dir) },
+		func() ([]func(), func()) { return runCallbacks(c, pool, r.Dir) },
+		func() ([]func(), func()) { return runWrapper(c, pool, r.Dir) },
+	} {
+		j, fin := f()
+		jobs = append(jobs, j...)
+		if fin != nil {
+			finish = append(finish, fin)
+		}
+	}
+	c.ParMap(len(jobs), func(i int) { jobs[i]() })
+	for _, fin := range finish {
+		fin()
+	}
+	c.Phase("run")
+	c.Set("rule", "TLC enumerates the catalog of Go types (20 leaf types, six composites over each, 12 nested shapes) x value pools (boundary + VERIF_SEED members), the pool of JavaScript values x accessor types, all concatenations of <= maxChunks UTF-8 / UTF-16 boundary chunks, all sequences of 2..4 externalisations of 3 functions, and 2 x 5 callback situations, each with the value the specification predicts; an evaluation is one case rendered through one route; distinct = distinct (family, route, type, input); non-trivial = every judged evaluation (each performs at least one Go<->JavaScript conversion); cases whose result the documentation leaves undefined are counted in unspecified_not_judged")
+}
+
+func readUnitFiles(dir string, each func(fam string, idx, row int, cases []any) error) error {
+	files, _ := filepath.Glob(filepath.Join(dir, "scen.*.ndjson"))
+	sort.Strings(files)
+	for _, f := range files {
+		err := tlcx.ReadNDJSON(f, func(raw json.RawMessage) error {
+			v, err := decodeJSONTwice(raw)
+			if err != nil {
+				return err
+			}
+			a := arr(v)
+			return each(a[0].(string), ival(a[1]), ival(a[2]), arr(a[3]))
+		})
+		if err != nil {
+			return fmt.Errorf("%s: %v", filepath.Base(f), err)
+		}
+	}
+	return nil
+}
+
+func readHeader(dir string) (*specHeader, error) {
+	b, err := os.ReadFile(filepath.Join(dir, "scen.header.json"))
+	if err != nil {
+		return nil, err
+	}
+	v, err := decodeJSONTwice(json.RawMessage(strings.TrimSpace(string(b))))
+	if err != nil {
+		return nil, err
+	}
+	a := arr(v)
+	h := &specHeader{routes: map[string][][2]string{}}
+	for _, t := range arr(a[0]) {
+		h.catalog = append(h.catalog, decType(t))
+	}
+	for i, n := range []string{"E", "I", "A", "R", "X"} {
+		h.routes[n] = decodeRoutes(a[1+i])
+	}
+	for _, t := range arr(a[6]) {
+		h.acc = append(h.acc, decType(t))
+	}
+	return h, nil
+}
+
+func title(s string) string { return strings.ToUpper(s[:1]) + s[1:] }
+
+func js(x any) string { b, _ := json.Marshal(x); return string(b) }
+
+// loadCases decodes what TLC wrote, guards every prediction with the second
+// transcription and expands the cases into evaluations.
+func loadCases(c *core.Ctx, dir string) (evs []*ev, hdr *specHeader, err error) {
+	defer func() {
+		if r := recover(); r != nil {
+			if te, ok := r.(termErr); ok {
+				err = te
+				return
+			}
+			panic(r)
+		}
+	}()
+	hdr, err = readHeader(dir)
+	if err != nil {
+		return nil, nil, err
+	}
+	tidx := map[string]int{}
+	for i, t := range hdr.catalog {
+		tidx[t.canon()] = i
+	}
+	discards, unspecified, cases := 0, 0, 0
+	famCount := map[string]int{}
+	accName := map[string]string{"bool": "Bool", "str": "String", "int": "Int", "i64": "Int64", "u64": "Uint64", "f64": "Float", "any": "Iface"}
+	agreeJ := func(a, b *JV) bool { return a.canon() == b.canon() }
+	agreeG := func(a, b *GV) bool { return a.canon() == b.canon() }
+	add := func(e *ev) {
+		evs = append(evs, e)
+	}
+	err = readUnitFiles(dir, func(fam string, idx, row int, cs []any) error {
+		for _, cx := range cs {
+			ca := arr(cx)
+			cases++
+			famCount[fam]++
+			raw := js([]any{fam, cx})
+			switch fam {
+			case "E", "ES":
+				if fam == "ES" {
+					// <<CaseE, predicted round trip>>
+					rt := decGV(ca[1])
+					ca = arr(ca[0])
+					t, v := decType(ca[0]), decGV(ca[1])
+					if o := oInternalize(oExternalize(v, t), t); !rt.hasUnspec() && !agreeG(o, rt) {
+						discards++
+					} else if !rt.hasUnspec() {
+						vv, tt := v, t
+						want := gdesc(rt, t)
+						for _, rr := range hdr.routes["R"][:2] {
+							rr := rr
+							add(&ev{fam: "R", route: rr[0], tIdx: tidx[t.canon()], want: want, raw: raw, typ: tt, val: vv,
+								describe: fmt.Sprintf("round trip of %s value %s", t.canon(), v.canon()),
+								gen:      func(r *renderer) string { return "r" + title(rr[0]) + r.routeSuffix(tt) + "(" + r.goLit(vv, tt) + ")" },
+								pred:     predR(rr[0], tt, vv)})
+						}
+					}
+				}
+				t, v, pred := decType(ca[0]), decGV(ca[1]), decJV(ca[2])
+				if pred.hasUnspec() {
+					unspecified++
+					continue
+				}
+				if !agreeJ(oExternalize(v, t), pred) {
+					discards++
+					continue
+				}
+				want := jdesc(pred)
+				routes := hdr.routes["E"]
+				if fam == "ES" {
+					routes = bulkRoutes(routes, []string{"call", "setkey", "field", "ret"})
+				}
+				for _, rr := range routes {
+					rr := rr
+					e := &ev{fam: "E", route: rr[0], tIdx: tidx[t.canon()], want: want, raw: raw, typ: t, val: v,
+						describe: fmt.Sprintf("Go %s value %s handed to JavaScript", t.canon(), v.canon()),
+						pred:     predE(rr[0], t, v)}
+					if rr[1] == "boxed" {
+						e.gen = func(r *renderer) string { return "e" + title(rr[0]) + "(" + r.goLit(v, t) + ")" }
+					} else {
+						e.gen = func(r *renderer) string { return "e" + title(rr[0]) + r.routeSuffix(t) + "(" + r.goLit(v, t) + ")" }
+					}
+					add(e)
+				}
+			case "R":
+				t, v, pred := decType(ca[0]), decGV(ca[1]), decGV(ca[2])
+				if pred.hasUnspec() {
+					unspecified++
+					continue
+				}
+				if !agreeG(oInternalize(oExternalize(v, t), t), pred) {
+					discards++
+					continue
+				}
+				want := gdesc(pred, t)
+				for _, rr := range hdr.routes["R"] {
+					rr := rr
+					add(&ev{fam: "R", route: rr[0], tIdx: tidx[t.canon()], want: want, raw: raw, typ: t, val: v,
+						describe: fmt.Sprintf("round trip of %s value %s", t.canon(), v.canon()),
+						gen:      func(r *renderer) string { return "r" + title(rr[0]) + r.routeSuffix(t) + "(" + r.goLit(v, t) + ")" },
+						pred:     predR(rr[0], t, v)})
+				}
+			case "I", "A", "IS":
+				var predX *JV
+				if fam == "IS" {
+					predX = decJV(ca[1])
+					ca = arr(ca[0])
+				}
+				t, j, pred := decType(ca[0]), decJV(ca[1]), decGV(ca[2])
+				if predX != nil && !predX.hasUnspec() {
+					if !agreeJ(oExternalize(oInternalize(j, t), t), predX) {
+						discards++
+					} else {
+						wantX := jdesc(predX)
+						for _, rr := range hdr.routes["X"][:1] {
+							rr := rr
+							add(&ev{fam: "X", route: rr[0], tIdx: tidx[t.canon()], want: wantX, raw: raw,
+								describe: fmt.Sprintf("JavaScript value %s through an exposed Go function of type %s and back", j.canon(), t.canon()),
+								gen: func(r *renderer) string {
+									return "x" + title(rr[0]) + r.routeSuffix(t) + "(" + strconv.Quote(jsLit(j)) + ")"
+								},
+								typ: t, pred: func() string { return jdesc(oExternalize(oInternalize(j, t), t)) }})
+						}
+					}
+				}
+				if pred.hasUnspec() {
+					unspecified++
+					continue
+				}
+				if !agreeG(oInternalize(j, t), pred) {
+					discards++
+					continue
+				}
+				want := gdesc(pred, t)
+				if fam == "A" {
+					for ri, rr := range hdr.routes["A"] {
+						rr, ri := rr, ri
+						name := accName[t.K]
+						add(&ev{fam: "A", route: name + "/" + rr[0], tIdx: -1, want: want, raw: raw, typ: t,
+							describe: fmt.Sprintf("accessor %s on JavaScript value %s", name, j.canon()),
+							gen:      func(r *renderer) string { return fmt.Sprintf("a%s(%d, %s)", name, ri, strconv.Quote(jsLit(j))) },
+							pred:     predI("acc", t, j)})
+					}
+					continue
+				}
+				routes := hdr.routes["I"]
+				if fam == "IS" {
+					routes = bulkRoutes(routes, []string{"param", "field"})
+				}
+				for _, rr := range routes {
+					rr := rr
+					add(&ev{fam: "I", route: rr[0], tIdx: tidx[t.canon()], want: want, raw: raw,
+						describe: fmt.Sprintf("JavaScript value %s read at Go type %s", j.canon(), t.canon()),
+						gen: func(r *renderer) string {
+							return "i" + title(rr[0]) + r.routeSuffix(t) + "(" + strconv.Quote(jsLit(j)) + ")"
+						},
+						typ: t, pred: predI(rr[0], t, j)})
+				}
+			case "X":
+				t, j, pred := decType(ca[0]), decJV(ca[1]), decJV(ca[2])
+				if pred.hasUnspec() {
+					unspecified++
+					continue
+				}
+				if !agreeJ(oExternalize(oInternalize(j, t), t), pred) {
+					discards++
+					continue
+				}
+				want := jdesc(pred)
+				for _, rr := range hdr.routes["X"] {
+					rr := rr
+					add(&ev{fam: "X", route: rr[0], tIdx: tidx[t.canon()], want: want, raw: raw,
+						describe: fmt.Sprintf("JavaScript value %s through an exposed Go function of type %s and back", j.canon(), t.canon()),
+						gen: func(r *renderer) string {
+							return "x" + title(rr[0]) + r.routeSuffix(t) + "(" + strconv.Quote(jsLit(j)) + ")"
+						},
+						typ: t, pred: func() string { return jdesc(oExternalize(oInternalize(j, t), t)) }})
+				}
+			case "L":
+				j, pred := decJV(ca[0]), decGV(ca[1])
+				if pred.hasUnspec() {
+					unspecified++
+					continue
+				}
+				if !agreeG(oLength(j), pred) {
+					discards++
+					continue
+				}
+				add(&ev{fam: "L", route: "Length", tIdx: -1, want: gdesc(pred, &Type{K: "int", Kind: "int"}), raw: raw,
+					describe: "Length of JavaScript value " + j.canon(),
+					gen:      func(r *renderer) string { return "aLength(" + strconv.Quote(jsLit(j)) + ")" },
+					pred:     func() string { return gdesc(oLength(j), &Type{K: "int", Kind: "int"}) }})
+			case "N":
+				op, j, pred := ca[0].(string), decJV(ca[1]), decJV(ca[3])
+				if pred.hasUnspec() {
+					unspecified++
+					continue
+				}
+				if op == "index" {
+					i := ival(ca[2])
+					if !agreeJ(oIndex(j, i), pred) {
+						discards++
+						continue
+					}
+					add(&ev{fam: "N", route: "Index", tIdx: -1, want: jdesc(pred), raw: raw,
+						describe: fmt.Sprintf("Index(%d) of %s", i, j.canon()),
+						gen:      func(r *renderer) string { return fmt.Sprintf("nIndex(%s, %d)", strconv.Quote(jsLit(j)), i) },
+						pred:     func() string { return jdesc(oIndex(j, i)) }})
+				} else {
+					key := bytesOf(ca[2])
+					if !agreeJ(oGet(j, oExtString(key)), pred) {
+						discards++
+						continue
+					}
+					add(&ev{fam: "N", route: "Get", tIdx: -1, want: jdesc(pred), raw: raw,
+						describe: fmt.Sprintf("Get(%q) of %s", key, j.canon()),
+						gen: func(r *renderer) string {
+							return fmt.Sprintf("nGet(%s, %s)", strconv.Quote(jsLit(j)), goStringLit(key))
+						},
+						pred: func() string { return jdesc(oGet(j, oExtString(key))) }})
+				}
+			case "M":
+				op, j, t, v, pred := ca[0].(string), decJV(ca[1]), decType(ca[3]), decGV(ca[4]), decJV(ca[5])
+				if pred.hasUnspec() {
+					unspecified++
+					continue
+				}
+				switch op {
+				case "set", "delete":
+					key := bytesOf(ca[2])
+					var o *JV
+					if op == "set" {
+						o = oSet(j, oExtString(key), oExternalize(v, t))
+					} else {
+						o = oDelete(j, oExtString(key))
+					}
+					if !agreeJ(o, pred) {
+						discards++
+						continue
+					}
+					e := &ev{fam: "M", route: title(op), tIdx: -1, want: jdesc(pred), raw: raw, typ: t, val: v,
+						describe: fmt.Sprintf("%s(%q) on %s", title(op), key, j.canon())}
+					if op == "set" {
+						e.pred = func() string { return jdesc(oSet(j, oExtString(key), oExternalize(v, t))) }
+						e.gen = func(r *renderer) string {
+							return fmt.Sprintf("mSet(%s, %s, %s)", strconv.Quote(jsLit(j)), goStringLit(key), r.goLit(v, t))
+						}
+					} else {
+						e.pred = func() string { return jdesc(oDelete(j, oExtString(key))) }
+						e.gen = func(r *renderer) string {
+							return fmt.Sprintf("mDelete(%s, %s)", strconv.Quote(jsLit(j)), goStringLit(key))
+						}
+					}
+					add(e)
+				case "setindex":
+					i := ival(ca[2])
+					if !agreeJ(oSetIndex(j, i, oExternalize(v, t)), pred) {
+						discards++
+						continue
+					}
+					add(&ev{fam: "M", route: "SetIndex", tIdx: -1, want: jdesc(pred), raw: raw, typ: t, val: v,
+						describe: fmt.Sprintf("SetIndex(%d) on %s", i, j.canon()),
+						pred:     func() string { return jdesc(oSetIndex(j, i, oExternalize(v, t))) },
+						gen: func(r *renderer) string {
+							return fmt.Sprintf("mSetIndex(%s, %d, %s)", strconv.Quote(jsLit(j)), i, r.goLit(v, t))
+						}})
+				}
+			case "F", "C", "W":
+				// rendered by their own programs (identity.go)
+			}
+		}
+		return nil
+	})
+	if err != nil {
+		return nil, nil, err
+	}
+	c.Set("cases", cases)
+	c.Set("cases_by_family", famCount)
+	c.Set("spec_guard_discards", discards)
+	c.Set("unspecified_not_judged", unspecified)
+	c.Set("types", len(hdr.catalog))
+	if discards > 0 {
+		fmt.Printf("note: %d cases discarded because the two transcriptions of the documentation disagree\n", discards)
+	}
+	return evs, hdr, nil
+}
+
+func bulkRoutes(all [][2]string, names []string) [][2]string {
+	var out [][2]string
+	for _, r := range all {
+		for _, n := range names {
+			if r[0] == n {
+				out = append(out, r)
+			}
+		}
+	}
+	return out
+}
+
+// ---- programs ----
+
+const partSize = 250
+
+func renderProgram(evs []*ev) gjs.Prog {
+	r := newRenderer()
+	var calls []string
+	for _, e := range evs {
+		calls = append(calls, e.gen(r))
+	}
+	pa := r.prAnySource()
+	var sb strings.Builder
+	sb.WriteString("package main\n\nimport \"github.com/gopherjs/gopherjs/js\"\n\nvar _ = js.Global\n\n")
+	sb.WriteString(r.decls.String())
+	sb.WriteString(pa)
+	nparts := (len(calls) + partSize - 1) / partSize
+	for p := 0; p < nparts; p++ {
+		fmt.Fprintf(&sb, "\nfunc part%d() {\n", p)
+		for i := p * partSize; i < len(calls) && i < (p+1)*partSize; i++ {
+			fmt.Fprintf(&sb, "\trun(%d, func() string { return %s })\n", i, calls[i])
+		}
+		sb.WriteString("}\n")
+	}
+	sb.WriteString("\nfunc main() {\n\tsetup()\n")
+	for p := 0; p < nparts; p++ {
+		fmt.Fprintf(&sb, "\tpart%d()\n", p)
+	}
+	sb.WriteString("\tprintln(\"done\")\n}\n")
+	return gjs.Prog{Files: map[string]string{"main.go": sb.String(), "lib.go": progLib}}
+}
+
+type failure struct {
+	e    *ev
+	got  string
+	keys []string
+}
+
+// runEvals groups the evaluations into programs, runs them and judges the lines.
+func runEvals(c *core.Ctx, pool *gjs.Pool, evs []*ev) ([]func(), func()) {
+	// one program per group of types (the per-type route code dominates the
+	// program size), the type-independent families in programs of their own
+	groups := map[int][]*ev{}
+	const typesPerProg = 10
+	for _, e := range evs {
+		g := -1
+		if e.tIdx >= 0 {
+			g = e.tIdx / typesPerProg
+		}
+		groups[g] = append(groups[g], e)
+	}
+	var progs [][]*ev
+	var gks []int
+	for g := range groups {
+		gks = append(gks, g)
+	}
+	sort.Ints(gks)
+	for _, g := range gks {
+		l := groups[g]
+		for len(l) > 4000 {
+			progs = append(progs, l[:4000])
+			l = l[4000:]
+		}
+		progs = append(progs, l)
+	}
+	c.Set("programs", len(progs))
+	fails := make([][]failure, len(progs))
+	judged := make([]int, len(progs))
+	var jobs []func()
+	for pi := range progs {
+		pi := pi
+		jobs = append(jobs, func() { runTable(c, pool, progs[pi], &fails[pi], &judged[pi]) })
+	}
+	return jobs, func() { finishEvals(c, evs, fails, judged) }
+}
+
+func runTable(c *core.Ctx, pool *gjs.Pool, es []*ev, fails *[]failure, judged *int) {
+	{
+		prog := renderProgram(es)
+		b := pool.RunBoth(c.Scratch, prog, gjs.Opts{}, 10*time.Minute, false, os.Getenv("VERIF_KEEP") != "")
+		if b.BuildErr != nil {
+			if be, ok := b.BuildErr.(*gjs.BuildError); ok && be.Panic {
+				c.Report(core.Case{Keys: []string{"compiler_panic"}, Summary: "compiler internal error on a conversion table program: " + be.Error(), Files: prog.ReplayFiles("prog")})
+			} else {
+				os.WriteFile(filepath.Join(c.Scratch, "c11_failed_main.go"), []byte(prog.Files["main.go"]), 0o644)
+				c.Infra(fmt.Errorf("gopherjs build of a generated program failed (VERIF_KEEP=1 keeps %s): %v", filepath.Join(c.Scratch, "c11_failed_main.go"), b.BuildErr))
+			}
+			return
+		}
+		got := map[int]string{}
+		done := false
+		for _, l := range b.JS.Lines {
+			if l == "done" {
+				done = true
+				continue
+			}
+			sp := strings.IndexByte(l, ' ')
+			if sp < 0 {
+				continue
+			}
+			i, err := strconv.Atoi(l[:sp])
+			if err != nil {
+				continue
+			}
+			got[i] = l[sp+1:]
+		}
+		if !done || b.JS.End != "exit" {
+			c.Report(core.Case{Keys: []string{"program_aborted"}, Summary: fmt.Sprintf("conversion table program did not finish: %d of %d lines, end=%s msg=%s", len(got), len(es), b.JS.End, b.JS.Msg), Files: prog.ReplayFiles("prog")})
+			return
+		}
+		for i, e := range es {
+			g, ok := got[i]
+			if !ok {
+				g = "<no output>"
+			}
+			*judged++
+			if g == e.want {
+				continue
+			}
+			*fails = append(*fails, failure{e: e, got: g})
+		}
+	}
+}
+
+func finishEvals(c *core.Ctx, evs []*ev, fails [][]failure, judged []int) {
+	total := 0
+	for _, j := range judged {
+		total += j
+	}
+	c.Add("evaluations", total)
+	c.Add("traces_validated_against_impl", total)
+	byRoute := map[string]int{}
+	for _, e := range evs {
+		byRoute[e.fam+"/"+e.route]++
+		c.Distinct(e.fam + "|" + e.route + "|" + e.raw)
+	}
+	c.Set("evaluations_by_route", byRoute)
+	// report: one case per (classifier keys | family/route/type) group
+	type group struct {
+		first failure
+		n     int
+	}
+	gm := map[string]*group{}
+	var order []string
+	for _, fl := range fails {
+		for _, f := range fl {
+			f.keys = classify(f.e, f.got)
+			k := strings.Join(f.keys, ",") + "|" + f.e.fam + "|" + f.e.route + "|" + strconv.Itoa(f.e.tIdx)
+			if len(f.keys) > 0 {
+				k = strings.Join(f.keys, ",")
+			}
+			g := gm[k]
+			if g == nil {
+				g = &group{first: f}
+				gm[k] = g
+				order = append(order, k)
+			}
+			g.n++
+		}
+	}
+	sort.Strings(order)
+	for _, k := range order {
+		g := gm[k]
+		f := g.first
+		mini := renderProgram([]*ev{f.e})
+		files := mini.ReplayFiles("prog")
+		files["scenario.json"] = f.e.raw + "\n"
+		files["predicted.txt"] = "0 " + f.e.want + "\ndone\nend=exit\n"
+		files["observed.txt"] = "0 " + f.got + "\n"
+		c.Report(core.Case{Keys: f.keys,
+			Summary: fmt.Sprintf("%s via route %s: documented %s, observed %s (%d evaluations of this group differ)", f.e.describe, f.e.route, f.e.want, f.got, g.n),
+			Files:   files})
+	}
+	n := 0
+	for _, e := range evs {
+		if n%(len(evs)/4+1) == 0 {
+			c.Sample(map[string]any{"family": e.fam, "route": e.route, "case": e.describe, "predicted": e.want})
+		}
+		n++
+	}
+}
